@@ -37,6 +37,13 @@ def setup(tier, seed):
     from reporters_db import REPORTERS
 
     eds = []
+    sib = {}
+    for key in sorted(REPORTERS):
+        for src in REPORTERS[key]:
+            names = list(src["editions"])
+            for n in names:
+                sib.setdefault(n, [x for x in names if x != n][:2])
+    _ED["siblings"] = sib
     for key in sorted(REPORTERS):
         for src in REPORTERS[key]:
             for ed_name, ed in src["editions"].items():
@@ -106,24 +113,43 @@ CTX_SLOTS = [
     ("before", ["", "See ", "As held in ", "But cf. "]),
     ("parties", ["", "Foo v. Bar, ", "In re Smith, ", "United States v. Jones, "]),
     ("pin", ["", ", 12", ", 12-13", ", at 14 n.3"]),
-    ("paren_year", ["", " (1999)", " (2d Cir. 1999)", " [1985]"]),
+    ("spelling", ["canonical", "variation"]),
+    ("paren_year", ["", " (1999)", " (2d Cir. 1999)", " [1985]", " (1803)", " (2015)", " (1650)"]),
     ("parenthetical", ["", " (en banc)", " (quoting (x) y)"]),
     ("after", [".", "; see also 2 F.2d 2.", " and more text", ""]),
 ]
 
 
+def unambiguous_variation(ed_name):
+    for v in dict(_ED["eds"]).get(ed_name, []):
+        t = f"5 {v} 10"
+        c = one_case(t, t)
+        if c is None:
+            continue
+        cand = c.exact_editions or c.variation_editions
+        if len(set(cand)) == 1 and cand[0].short_name == ed_name:
+            return v
+    return None
+
+
 def check_context(ed_name, assign):
-    core = f"5 {ed_name} 10"
-    base = one_case(core, core)
+    base_text = f"5 {ed_name} 10"
+    base = one_case(base_text, base_text)
     if base is None:
         return [], "canon-not-parsed"
+    written = ed_name
+    if assign["spelling"] == "variation":
+        written = unambiguous_variation(ed_name)
+        if written is None:
+            return [], "no-unambiguous-variation"
+    core = f"5 {written} 10"
     text = assign["before"] + assign["parties"] + core + assign["pin"] + assign["paren_year"] + assign["parenthetical"] + assign["after"]
     c = one_case(text, core)
     if c is None:
         return [], "context-not-parsed"
     e = eq3(c, base)
     if e != (True, True, True):
-        return [("context-neq", f"{text!r} vs bare {core!r}: ==,hash,resource = {e}")], "ok"
+        return [("context-neq", f"{text!r} vs bare {base_text!r}: ==,hash,resource = {e}")], "ok"
     return [], "ok"
 
 
@@ -151,6 +177,11 @@ def build_pool(ed_name, variations):
     add("other-page", f"5 {ed_name} 11", f"5 {ed_name} 11", M.FullCaseCitation, ("case", ed_name, "5", "11"), "full")
     add("other-volume", f"6 {ed_name} 10", f"6 {ed_name} 10", M.FullCaseCitation, ("case", ed_name, "6", "10"), "full")
     add("other-reporter", f"5 {other} 10", f"5 {other} 10", M.FullCaseCitation, ("case", other, "5", "10"), "full")
+    for sname in _ED["siblings"].get(ed_name, []):
+        # another series of the same reporter family is a different document
+        c = one_case(f"5 {sname} 10", f"5 {sname} 10")
+        if c is not None and len(set(c.exact_editions or c.variation_editions)) == 1:
+            items.append((f"sibling-series:{sname}", c, ("case", sname, "5", "10"), "full"))
     add("short-1", f"See 5 {ed_name} at 10.", f"5 {ed_name} at 10", M.ShortCaseCitation, ("short", ed_name, "5", "10"), "short")
     add("short-2", f"Bar, 5 {ed_name} at 10 (x).", f"5 {ed_name} at 10", M.ShortCaseCitation, ("short", ed_name, "5", "10"), "short")
     add("placeholder-1", f"5 {ed_name} ___", f"5 {ed_name} ___", M.FullCaseCitation, None, "full")
